@@ -37,7 +37,8 @@ ASSUMPTIONS = [
     'numeric agreement within 1e-9 * max(1, coordinate magnitude); area totals within that times '
     '(perimeter + 1); sub_faces_by_ratio_rectangle / _sub_rectangle may drop sub-faces whose '
     'area is below the given tolerance (their docstring filter), so their total may fall short '
-    'by at most tolerance * (number of parent vertices)',
+    'by at most tolerance * (number of parent vertices) and - edges within tolerance of '
+    'horizontal count as horizontal - exceed by at most tolerance * perimeter',
     'perimeter_core_by_offset: holes strictly inside, all offset loops certified disjoint; a '
     'None result on such an input is reported',
     'sub-rectangle parameters: ratio in [0.01, 0.95], heights / widths / separations > 0, sill '
@@ -751,7 +752,8 @@ def edge_lengths(K):
             for k in range(len(K))]
 
 
-def judge_subfaces(site, parent, subs, ratio=None, short_allow=0.0, args_desc=''):
+def judge_subfaces(site, parent, subs, ratio=None, short_allow=0.0, args_desc='',
+                   excess_tol=0.0):
     """parent: dict(boundary [3D float tuples], holes [[...]], n (float normal), o (float origin)).
     subs: list of dict(pts [3D float tuples], normal (float tuple)).  Returns [(clause, detail)]."""
     bad = []
@@ -855,7 +857,10 @@ def judge_subfaces(site, parent, subs, ratio=None, short_allow=0.0, args_desc=''
         per = sum(math.dist(parent['boundary'][i - 1], parent['boundary'][i])
                   for i in range(len(parent['boundary'])))
         ta = REL * M * (per + 1.0) * 4
-        if tot > ratio * pa + ta or tot < ratio * pa - ta - short_allow:
+        # (the rectangle methods treat edges within `tolerance` of horizontal / vertical as
+        # such: the extracted rectangle may reach up to `tolerance` beyond the outline along
+        # its sides, i.e. the total may exceed by at most tolerance x perimeter)
+        if tot > ratio * pa + ta + excess_tol * per or tot < ratio * pa - ta - short_allow:
             bad.append(('area', '%s: sub-faces total %.12g, ratio * parent area = %.12g * %.12g = '
                         '%.12g' % (head, tot, ratio, pa, ratio * pa)))
     return bad
@@ -1031,7 +1036,8 @@ def run_face_method(face, meth, params):
         allow = params['tolerance'] * (len(parent['boundary']) + 2)
     if ratio is not None and not subs:
         return [('area', '%s%s returns no sub-face' % (site, desc))]
-    return judge_subfaces(site, parent, subs, ratio, allow, desc)
+    return judge_subfaces(site, parent, subs, ratio, allow, desc,
+                          excess_tol=params['tolerance'] if allow else 0.0)
 
 
 def run_static_rects(meth, plane_w, B, H, params):
